@@ -58,6 +58,27 @@ def nontrivial(trace_rows):
     return auth, upd_between
 
 
+def stale_mark_features(beh):
+    """(a) a Mark of an element of a REPLACED list (snapshot, then Update, then the client's bytes) followed by a later
+    connection; (b) ... by a later connection with a key of the NEW list; (c) ... with a key that the Update revoked"""
+    lists, stale, old = [], False, set()
+    a = b = c = False
+    for s in beh:
+        if s["a"] == "Update":
+            lists.append({(k["cls"], k["sec"]) for k in s["shape"]})
+        elif s["a"] == "Mark" and not s["moved"] and not stale:
+            stale = True
+            old = set().union(*lists[:-1]) if len(lists) > 1 else set()
+        elif s["a"] == "Snapshot" and stale:
+            a = True
+            k = (s["op"]["cls"], s["op"]["sec"])
+            if s["op"]["kind"] == "valid" and k in lists[-1]:
+                b = True
+            if s["op"]["kind"] == "valid" and k not in lists[-1] and k in old:
+                c = True
+    return a, b, c
+
+
 def replay_behaviours(ctx, behs, desc, seed):
     drv = ta_common.driver(ctx)
     bf = os.path.join(ctx.scratch, "cl-behs-%d.json" % seed)
@@ -65,6 +86,8 @@ def replay_behaviours(ctx, behs, desc, seed):
     tf = os.path.join(ctx.scratch, "cl-trace-%d.ndjson" % seed)
     info, _ = ta_common.run_driver(ctx, [drv, "beh", "-in", bf, "-out", tf, "-seed", str(seed), "-par", "16",
                                          "-timeout", "2000"], "beh")
+    ctx.cov.setdefault("handler_panics_logged", 0)
+    ctx.cov["handler_panics_logged"] += info.get("panics_logged", 0)
     skipped = info.get("skipped_late", 0)
     if skipped:
         ctx.cov["skipped"].append("%d behaviours whose valid opener reached the server later than half the handshake "
@@ -93,6 +116,16 @@ def run(ctx):
         behs = ta_common.gen_behaviours(ctx, "CipherListGen", cfg, n, ctx.seed * 2 + i)
         if len(behs) < n // 3:
             raise vlib.Inconclusive("behaviour generation (%s) produced only %d behaviours" % (cfg, len(behs)))
+        if i == 0:
+            # the stale-Mark-after-Update interleaving (with revocation) must always be among the replayed behaviours
+            fs = [stale_mark_features(b) for b in behs]
+            cnt = [sum(1 for f in fs if f[j]) for j in range(3)]
+            ctx.cov["behaviours_stale_mark_then_connection"] = cnt[0]
+            ctx.cov["behaviours_stale_mark_then_new_key"] = cnt[1]
+            ctx.cov["behaviours_stale_mark_then_revoked_key"] = cnt[2]
+            if min(cnt) < 10:
+                raise vlib.Inconclusive("generated behaviours do not cover the stale-Mark-after-Update interleaving "
+                                        "(then connection / new key / revoked key: %s)" % cnt)
         rows = replay_behaviours(ctx, behs, "beh %s" % cfg, ctx.seed * 10 + i)
         total.append(len(behs))
         if i == 0:
